@@ -127,9 +127,13 @@ def run_one(algo: str, rep_name: str, gname: str, seed: int, budget: int):
         rep = StackBasedGGGPRepresentation(g, gene_length=256)
     log = []
 
+    coarse = algo == "gpc"   # coarse objective: many fitness ties among the best (elitism must break them reproducibly)
+
     def ff(p):
         s = repr(p)
         log.append(s)
+        if coarse:
+            return float(len(s) % 3)
         return (len(s) * 7919) % 1000 + len(s) / 1000.0
 
     problem = SingleObjectiveProblem(ff, minimize=False)
@@ -137,6 +141,9 @@ def run_one(algo: str, rep_name: str, gname: str, seed: int, budget: int):
     try:
         if algo == "gp":
             alg = GeneticProgramming(problem, b, rep, random=r, population_size=8)
+        elif algo == "gpc":
+            # population large enough for the default step to reserve elitism slots
+            alg = GeneticProgramming(problem, b, rep, random=r, population_size=24)
         elif algo == "rs":
             alg = RandomSearch(problem, b, rep, random=r)
         elif algo == "hc":
